@@ -110,7 +110,7 @@ def replay_args(ctx):
 
 def collect_traces(ctx, dense_budgets_first=True):
     rng = np.random.default_rng(ctx.seed)
-    confs = R.BASE_CONFIGS[:3] + [R.BASE_CONFIGS[4]] + R.BASE_CONFIGS[-2:] if ctx.tier == 'quick' else list(R.BASE_CONFIGS)      # [4]: nswp = 0
+    confs = R.BASE_CONFIGS[:3] + [R.BASE_CONFIGS[4]] + R.BASE_CONFIGS[-3:] if ctx.tier == 'quick' else list(R.BASE_CONFIGS)      # [4]: nswp = 0, [-1]: cache ties
     if ctx.tier != 'quick':
         # random configurations
         for _ in range(6):
